@@ -120,6 +120,15 @@ func stGenModify(r *fw.Rand) (string, stExp, bool) {
 		txt := fmt.Sprintf("-(%d-%d)", a, b)
 		return cn + txt, stExp{"mod", cn, fmt.Sprintf("i%d", a-b), "NIL", "-", txt}, true
 	case 7:
+		if r.P(1, 3) {
+			// the written "-expr" may be a conditional: (-a) ? b : -c with a > 0 is b, reported negated
+			a, b, c := 1+r.Intn(5), 1+r.Intn(9), 1+r.Intn(9)
+			txt := fmt.Sprintf("-%d?%d:-%d", a, b, c)
+			if r.Bool() {
+				txt = fmt.Sprintf("-%d ? %d : -%d", a, b, c)
+			}
+			return cn + txt, stExp{"mod", cn, fmt.Sprintf("i%d", -b), "NIL", "-", txt}, false
+		}
 		a, b := 1+r.Intn(5), r.Intn(9)
 		txt := fmt.Sprintf("-%d+%d", a, b)
 		return cn + txt, stExp{"mod", cn, fmt.Sprintf("i%d", a-b), "NIL", "-", txt}, false
